@@ -42,8 +42,8 @@ ASSUMPTIONS = [
     "violations are attributed to the client when its DATA-phase stream differs from the reference dot-stuffing "
     "(per read chunk), otherwise to the server; the verdict itself only looks at the server side",
 ]
-MIN = {"quick": {"evaluations": 40000, "nontrivial": 25000, "outcomes": 3},
-       "thorough": {"evaluations": 580000, "nontrivial": 420000, "outcomes": 3}}
+MIN = {"quick": {"evaluations": 40000, "nontrivial": 28000, "outcomes": 12},
+       "thorough": {"evaluations": 410000, "nontrivial": 320000, "outcomes": 12}}
 
 LINES = [b".", b"..", b".a", b"a", b"", b"a.b", b"h:v", b"a."]
 RCVD = b"Received: by verif"
